@@ -125,6 +125,15 @@ func drive[C any](t *testing.T, rec *ev.Rec, gen func(*rapid.T) C, check func(C,
 		if rec.IsKnown(f) {
 			return
 		}
+		if f.Sig["result"] == "hang" {
+			// the call is still spinning in its goroutine: every further case
+			// (and every shrink attempt) would compete with it or hang as
+			// well. Report the case as it is and end this shard at once.
+			rec.Report(c, f)
+			rec.Write()
+			fmt.Fprintf(os.Stderr, "hang: %s\n", f.Msg)
+			os.Exit(1)
+		}
 		cc := c
 		pending, pendingF = &cc, f
 		rt.Fatalf("%s", f.Msg)
@@ -186,6 +195,11 @@ func enumerate[C any](t *testing.T, rec *ev.Rec, check func(C, *ev.Rec) *ev.Fail
 			return true
 		}
 		rec.Report(c, f)
+		if f.Sig["result"] == "hang" {
+			rec.Write()
+			fmt.Fprintf(os.Stderr, "hang: %s\n", f.Msg)
+			os.Exit(1)
+		}
 		t.Errorf("%s", f.Msg)
 		if rec.Violations() >= 5 {
 			stop = true
